@@ -46,3 +46,39 @@ Theorem C03_unit_weight_nsi_degree r i : (i < rn r)%nat -> (forall j, ra r j j =
   (eval (to_graph r) [i] (K 0) = sumn (rn r) (fun j => ind (ra r i j)) + 1)%Qc.
 Proof. exact (unit_weight_nsi_degree r i). Qed.
 Print Assumptions C03_unit_weight_nsi_degree.
+
+(* ---- textbook definitions of the basic measures (Model/GraphDefs.v, compared
+        with the library inside Coq on exhaustive small graphs) ---- *)
+From PV.Model Require GraphDefs.
+From PV.Proofs Require GraphDefs.
+
+(* handshake lemma: the degrees of a simple undirected network add up to
+   twice its number of links, for every size *)
+Theorem C03_handshake n A : (forall i j, A i j = A j i) -> (forall i, A i i = false) ->
+  list_sum (map (GraphDefs.degree n A) (seq 0 n)) = (2 * GraphDefs.links n A)%nat.
+Proof. exact (PV.Proofs.GraphDefs.handshake n A). Qed.
+Print Assumptions C03_handshake.
+
+(* local clustering and transitivity are fractions *)
+Theorem C03_local_clustering_range n A i : (forall a, A a a = false) ->
+  (0 <= GraphDefs.local_clustering n A i /\ GraphDefs.local_clustering n A i <= 1)%Q.
+Proof. exact (PV.Proofs.GraphDefs.local_clustering_range n A i). Qed.
+Print Assumptions C03_local_clustering_range.
+
+Theorem C03_transitivity_range n A : (forall a, A a a = false) ->
+  (0 <= GraphDefs.transitivity n A /\ GraphDefs.transitivity n A <= 1)%Q.
+Proof. exact (PV.Proofs.GraphDefs.transitivity_range n A). Qed.
+Print Assumptions C03_transitivity_range.
+
+(* shortest path lengths: the reported distance is attained and minimal, a
+   node is at distance 0 from itself, paths concatenate *)
+Theorem C03_distance_is_least n A i j d : GraphDefs.dist n A i j = Some d ->
+  GraphDefs.within n A d i j = true /\ forall k, (k < d)%nat -> GraphDefs.within n A k i j = false.
+Proof. exact (PV.Proofs.GraphDefs.dist_least n A i j d). Qed.
+Print Assumptions C03_distance_is_least.
+
+Theorem C03_paths_concatenate n A a b i j m : (m < n)%nat -> (j < n)%nat ->
+  GraphDefs.within n A a i j = true -> GraphDefs.within n A b j m = true ->
+  GraphDefs.within n A (a + b) i m = true.
+Proof. exact (PV.Proofs.GraphDefs.within_trans n A b a i j m). Qed.
+Print Assumptions C03_paths_concatenate.
